@@ -10,6 +10,7 @@ import YangVerif.Drv.Data
 import YangVerif.Drv.C08
 import YangVerif.Drv.C09
 import YangVerif.Drv.C12
+import YangVerif.Drv.C15
 
 def dispatch (line : String) : String :=
   match (line.trimAscii.toString.splitOn " ").filter (· ≠ "") with
@@ -21,6 +22,7 @@ def dispatch (line : String) : String :=
   | "c08" :: rest => YangVerif.Drv.C08.handle rest
   | "c09" :: rest => YangVerif.Drv.C09.handle rest
   | "c12" :: rest => YangVerif.Drv.C12.handle rest
+  | "c15" :: rest => YangVerif.Drv.C15.handle rest
   | _ => "bad-op"
 
 partial def loop (h : IO.FS.Stream) (out : IO.FS.Stream) : IO Unit := do
